@@ -459,6 +459,8 @@ fn run_one<V: VK>(steps: &[Value], cfg: &Cfg, st: &mut Stats, bidx: usize) {
     // behaviours are independent runs: registrations of readers that an earlier behaviour left behind (a reader dropped
     // on another thread, or never dropped) must not be matched against this behaviour's mapping
     st.stale_readers += rawdb::verif::access_tap_reset_thread() as u64;
+    // accesses recorded while the previous behaviour was torn down (after its last verdict) belong to that behaviour
+    if cfg.reads { let _ = rawdb::verif::access_tap_take(); }
     let scratch = Scratch::new("vec");
     let name = "v";
     let mut db = Some(Database::open(scratch.path()).expect("open db"));
